@@ -8,11 +8,12 @@ import Optyx.Drive.State
 import Optyx.Drive.Api
 import Optyx.Drive.Solve
 import Optyx.Drive.Compile
+import Optyx.Drive.Glue
 
 namespace Optyx.Drive
 
 def handlers : List (String → List Sexp → Option String) :=
-  [handleCore, LPNs.handleLP, LPNs.handleScipy, AnalysisNs.handleAnalysis, JacNs.handleJac, handleState, handleApi, handleSolve, handleCompile]
+  [handleCore, LPNs.handleLP, LPNs.handleScipy, AnalysisNs.handleAnalysis, JacNs.handleJac, handleState, handleApi, handleSolve, handleCompile, GlueNs.handle]
 
 def dispatch (line : String) : String :=
   match Sexp.parseLine line with
